@@ -823,6 +823,13 @@ func (config *Config) resolve() (changedFields set.Set[string], err error) {
 				continue valueLoop
 			}
 
+			if source < currentSource {
+				log.Infof("Skipping config value for %v from %v; "+
+					"already have a value from %v", name,
+					source, currentSource)
+				continue
+			}
+
 			log.Infof("Parsing value for %v: %v (from %v)",
 				name, rawValue, source)
 			var value any
@@ -861,12 +868,6 @@ func (config *Config) resolve() (changedFields set.Set[string], err error) {
 
 			log.Infof("Parsed value for %v: %v (from %v)",
 				name, value, source)
-			if source < currentSource {
-				log.Infof("Skipping config value for %v from %v; "+
-					"already have a value from %v", name,
-					source, currentSource)
-				continue
-			}
 			field := reflect.ValueOf(config).Elem().FieldByName(name)
 			field.Set(reflect.ValueOf(value))
 			newRawValues[name] = rawValue
